@@ -54,17 +54,17 @@ Section Generic.
   Variable iv : Z -> Z.
   Variable maxq : Z.
 
+  (* one pass through the loop of DoCheck with nobody interfering (the CAS succeeds):
+       loaded := Load(last); pass := max(loaded + i, cur); wait := pass - cur;
+       wait > maxq -> blocked, state untouched;  CAS(last, loaded, pass) -> nil when wait = 0,
+       ShouldWait(wait) otherwise *)
   Definition do_check (last now b : Z) : Z * out :=
     if b <=? 0 then (last, OZero) else
     if blk b then (last, OBlock) else
-    let i := iv b in
-    if last + i <=? now then (now, OPass 0)            (* idle: CAS(last, loaded, now) *)
-    else if last + i - now >? maxq then (last, OBlock) (* reload; estimated wait too long *)
-    else
-      let new := last + i in                           (* atomic.AddInt64 returns the new value *)
-      let est := new - now in
-      if est >? maxq then (last, OBlock)               (* add, then roll back *)
-      else (new, OPass (if est >? 0 then est else 0)).
+    let pass := Z.max (last + iv b) now in
+    let wait := pass - now in
+    if wait >? maxq then (last, OBlock)
+    else (pass, OPass wait).
 
   (* a request = (arrival time in ns, batch count) *)
   Fixpoint run (last : Z) (ops : list (Z * Z)) : Z * list out :=
